@@ -1,43 +1,165 @@
 (* C12 — shutdown always completes: no hang, no panic, channels closed.
-   Property statements only; each is closed by [exact] of a lemma proved in C12/*Proofs.v. *)
+   Property statements only; each is closed by [exact] of a lemma proved in C12/*.v.
+   Models (coq/C12): Prod (async producer), PC (partition consumer + broker worker), Grp (consumer group),
+   OM (offset manager), Client, Broker, Refs (reference-counted workers, any number of holders).
+   [run (step c) (init c) l = Some s]: s is reached by schedule l — any interleaving of the goroutines'
+   blocking operations with Close / AsyncClose called at any point.  A close of a closed channel, a send on
+   a closed channel or a negative WaitGroup sets [panic]. *)
 From Coq Require Import List Arith Bool.
-From SV Require Import C12.Lts C12.Conn C12.ConnProofs C12.Refs C12.RefsProofs.
+From SV Require Import C12.Lts C12.Conn C12.ConnProofs C12.Refs C12.RefsProofs
+  C12.OffMgr C12.OffMgrProofs C12.OffMgrSim
+  C12.PCons C12.PConsProofs C12.PConsSafety C12.PConsSim C12.PConsAccept C12.PConsNoOor
+  C12.Group C12.GroupProofs C12.GroupSafety C12.GroupSim C12.GroupAccept C12.GroupTerm C12.GroupTerminates
+  C12.Prod C12.ProdProofs C12.ProdSafety C12.ProdSim C12.ProdAccept.
 Import ListNotations.
 
-(* ---- client ---- *)
-Theorem c12_client_no_panic : forall c l s,
-  run (Client.step c) (Client.init c) l = Some s -> Client.panic s = false.
-Proof. exact ClientP.client_no_panic. Qed.
-Print Assumptions c12_client_no_panic.
+(* Print Assumptions walks the whole proof below a theorem; statements about the same component are therefore
+   grouped, so that each proof development is walked once. *)
 
-Theorem c12_double_close_harmless_client : forall c l s,
-  run (Client.step c) (Client.init c) l = Some s -> Client.accepts (trace Client.lbl l) = true.
-Proof. exact ClientP.client_trace_accepted. Qed.
-Print Assumptions c12_double_close_harmless_client.
+(* ================= no send on a closed channel / no double close: a Panic state is unreachable ============ *)
 
-Theorem c12_client_terminates : forall c,
-  Terminates (Client.step c) (fun s => Reach (Client.step c) (Client.init c) s /\ Client.closer s = true) Client.final.
-Proof. exact ClientP.client_terminates. Qed.
-Print Assumptions c12_client_terminates.
+(* partition consumer, offset manager, client, broker connection, reference-counted broker workers (any number of
+   holders) and — on the repaired tree, where handleError and close(c.errors) are serialised by errorsLock — the
+   consumer group: for every schedule and every moment of Close / AsyncClose *)
+Theorem c12_no_panic : 
+  (forall c l s, run (PC.step c) (PC.init c) l = Some s -> PC.panic s = false) /\
+  (forall c l s, run (OM.step c) (OM.init c) l = Some s -> OM.panic s = false) /\
+  (forall c l s, run (Client.step c) (Client.init c) l = Some s -> Client.panic s = false) /\
+  (forall c l s, run (Broker.step c) (Broker.init c) l = Some s -> Broker.panic s = false) /\
+  (forall n l s, run Refs.step (Refs.init n) l = Some s -> Refs.panic s = false) /\
+  (forall c l s, Grp.elock c = true -> run (Grp.step c) (Grp.init c) l = Some s -> Grp.panic s = false).
+Proof.
+  exact (conj PCS.pc_no_panic (conj OMP.om_no_panic (conj ClientP.client_no_panic (conj BrokerP.broker_no_panic
+        (conj RefsP.refs_no_panic GrpS.group_no_panic_fixed))))).
+Qed.
+Print Assumptions c12_no_panic.
 
-(* ---- broker connection ---- *)
-Theorem c12_broker_no_panic : forall c l s,
-  run (Broker.step c) (Broker.init c) l = Some s -> Broker.panic s = false.
-Proof. exact BrokerP.broker_no_panic. Qed.
-Print Assumptions c12_broker_no_panic.
+(* async producer: no panic; shutdown() closes input, retries, errors, successes only when nothing is in flight and
+   inFlight counts every token a goroutine can hold; what the application observes is accepted by the observer
+   automaton (the acceptance function of the correspondence) *)
+Theorem c12_producer_safe :
+  (forall c l s, run (Prod.step c) (Prod.init c) l = Some s -> Prod.panic s = false) /\
+  (forall c l s, run (Prod.step c) (Prod.init c) l = Some s ->
+     Prod.inflight s = ProdP.tokens s /\
+     (Prod.err_closed s = true \/ Prod.succ_closed s = true \/ Prod.ret_closed s = true \/ Prod.in_closed s = true -> ProdP.tokens s = 0)) /\
+  (forall c l s, run (Prod.step c) (Prod.init c) l = Some s -> Prod.accepts c (trace (Prod.lbl c) l) = true).
+Proof. exact (conj ProdS.prod_no_panic (conj ProdS.prod_closed_after_last_event ProdA.prod_trace_accepted)). Qed.
+Print Assumptions c12_producer_safe.
 
-Theorem c12_broker_close_not_open : forall c s s', Broker.conn s = false -> Broker.step c s Broker.ACloseCall = Some s' ->
-  Broker.ret s' = Some rErrNotConnected /\ Broker.conn s' = false /\ Broker.resp s' = Broker.resp s /\
-  Broker.done s' = Broker.done s /\ Broker.panic s' = Broker.panic s.
-Proof. exact BrokerP.broker_close_not_open. Qed.
-Print Assumptions c12_broker_close_not_open.
+(* a reference that is never returned (retryBatch of the idempotent producer) keeps the worker's input open *)
+Theorem c12_refs_leak_never_closed : forall n l1 s1 l2 s2,
+  run Refs.step (Refs.init n) l1 = Some s1 -> Refs.leaky (Refs.holders s1) = true ->
+  run Refs.step s1 l2 = Some s2 -> Refs.in_closed s2 = false.
+Proof. exact RefsP.refs_leak_never_closed. Qed.
+Print Assumptions c12_refs_leak_never_closed.
 
-Theorem c12_broker_close_terminates : forall c,
-  Terminates (Broker.step c) (fun s => Reach (Broker.step c) (Broker.init c) s /\ Broker.closing s) BrokerP.final.
-Proof. exact BrokerP.broker_close_terminates. Qed.
-Print Assumptions c12_broker_close_terminates.
+(* consumer group, pinned tree: the full statement is false — an error forwarder that passed handleError's
+   closed check before Close was called sends on c.errors after Close closed it ... *)
+Theorem c12_no_send_on_closed_group_refuted :
+  exists l s, run (Grp.step GrpS.racy_cfg) (Grp.init GrpS.racy_cfg) l = Some s /\ Grp.panic s = true.
+Proof. exact GrpS.group_send_on_closed_refuted. Qed.
+Print Assumptions c12_no_send_on_closed_group_refuted.
 
-(* ---- reference-counted broker workers, any number of holders ---- *)
-Theorem c12_refs_no_double_close : forall n l s, run Refs.step (Refs.init n) l = Some s -> Refs.panic s = false.
-Proof. exact RefsP.refs_no_panic. Qed.
-Print Assumptions c12_refs_no_double_close.
+(* ... and that interleaving is the only way: every schedule that never executes close(c.errors) while a forwarder
+   is between the check and the send is panic-free, and what the application observes is accepted (first Close nil
+   or error, later ones nil; Consume after Close answers ErrClosedConsumerGroup; nothing on Errors() afterwards) *)
+Theorem c12_no_send_on_closed_group_partial :
+  (forall c l s, GrpS.avoids c (Grp.init c) l -> run (Grp.step c) (Grp.init c) l = Some s -> Grp.panic s = false) /\
+  (forall c l s, GrpS.avoids c (Grp.init c) l -> run (Grp.step c) (Grp.init c) l = Some s -> Grp.accepts (trace Grp.lbl l) = true).
+Proof. exact (conj GrpS.group_no_panic_partial GrpA.group_trace_accepted_partial). Qed.
+Print Assumptions c12_no_send_on_closed_group_partial.
+
+(* partition consumer, site by site: whoever is about to send on errors / messages / feeder / trigger / the
+   worker's input finds the channel open *)
+Theorem c12_no_send_on_closed : forall c l s, run (PC.step c) (PC.init c) l = Some s ->
+  ((PC.dp s = PC.DErr \/ PC.fp s = PC.FParseErr \/ (exists o, PC.sc (PC.w s) = PC.SCHErr o) \/
+    PC.sc (PC.w s) = PC.SCAbErr \/ PC.sc (PC.w s) = PC.SCAbNErr) -> closed (PC.errs (PC.ch s)) = false) /\
+  ((exists n f, PC.fp s = PC.FMsgs n f) \/ (exists n, PC.fp s = PC.FLimbo n) -> closed (PC.msgs (PC.ch s)) = false) /\
+  (PC.sc (PC.w s) = PC.SCFeed -> PC.feed_closed (PC.ch s) = false) /\
+  ((PC.dp s = PC.DTok \/ PC.sc (PC.w s) = PC.SCHTok \/ PC.sc (PC.w s) = PC.SCAbTok \/ PC.sc (PC.w s) = PC.SCAbNTok) ->
+     PC.trig_closed (PC.ch s) = false /\ PC.trig_tok (PC.ch s) = false) /\
+  ((PC.dp s = PC.DSub \/ PC.fp s = PC.FResub) -> PC.in_closed (PC.w s) = false).
+Proof. exact PCS.pc_no_send_on_closed. Qed.
+Print Assumptions c12_no_send_on_closed.
+
+(* partition consumer, site by site: whoever is about to close trigger / feeder / messages / errors / the
+   worker's input / wait / newSubscriptions finds it open; trigger is closed either by the dispatcher or by the
+   broker worker holding the subscription, never both *)
+Theorem c12_no_double_close : forall c l s, run (PC.step c) (PC.init c) l = Some s ->
+  ((PC.dp s = PC.DSel \/ PC.sc (PC.w s) = PC.SCUpdClose \/ PC.sc (PC.w s) = PC.SCHClose) -> PC.trig_closed (PC.ch s) = false) /\
+  (PC.dp s = PC.DCloseF -> PC.feed_closed (PC.ch s) = false) /\
+  (PC.fp s = PC.FCloseM -> closed (PC.msgs (PC.ch s)) = false) /\
+  (PC.fp s = PC.FCloseE -> closed (PC.errs (PC.ch s)) = false) /\
+  (PC.has_broker s = true -> PC.in_closed (PC.w s) = false) /\
+  (PC.sm (PC.w s) = PC.SMCloseWait -> PC.wait_closed (PC.w s) = false) /\
+  (PC.sm (PC.w s) = PC.SMCloseNS -> PC.ns_closed (PC.w s) = false) /\
+  (PC.dp s = PC.DSel -> PC.sc (PC.w s) <> PC.SCUpdClose /\ PC.sc (PC.w s) <> PC.SCHClose).
+Proof. exact PCS.pc_no_double_close. Qed.
+Print Assumptions c12_no_double_close.
+
+(* ================= output channels are closed after their last event ================= *)
+
+(* partition consumer: messages / errors are closed by the feeder after its last send, feeder after the
+   dispatcher left its loop; offset manager: a POM's errors channel is closed exactly when the POM was released
+   (removed from om.poms: nothing is sent to it any more) *)
+Theorem c12_closed_after_last_event :
+  (forall c l s, run (PC.step c) (PC.init c) l = Some s ->
+    (closed (PC.msgs (PC.ch s)) = true -> PC.fp s = PC.FCloseE \/ PC.fp s = PC.FDone) /\
+    (closed (PC.errs (PC.ch s)) = true -> PC.fp s = PC.FDone) /\
+    (PC.feed_closed (PC.ch s) = true -> PC.dp s = PC.DDone) /\
+    (PC.fp s = PC.FCloseM \/ PC.fp s = PC.FCloseE \/ PC.fp s = PC.FDone -> PC.feed_closed (PC.ch s) = true /\ PC.feed_full (PC.ch s) = false)) /\
+  (forall c l s p, run (OM.step c) (OM.init c) l = Some s -> In p (OM.poms s) -> closed (OM.errs p) = negb (OM.managed p)).
+Proof. exact (conj PCS.pc_closed_after_last_event OMP.om_released_closed). Qed.
+Print Assumptions c12_closed_after_last_event.
+
+(* what the application can observe of a run is accepted by the component's observer automaton — the acceptance
+   functions the correspondence evaluates on the harness observations (coq/C12/Corr.v): no event on a channel after
+   its close was seen; nothing from Errors() while the application's Close() drains it; Close() returns after errors
+   was closed and drained, and then messages is closed too and holds at most its buffer; when the broker never
+   answers OffsetOutOfRange the channels are seen closed only after a close call; offset manager: per POM events,
+   then one close, nothing afterwards *)
+Theorem c12_observable :
+  (forall c l s, run (PC.step c) (PC.init c) l = Some s -> PC.accepts c true (trace PC.lbl l) = true) /\
+  (forall c l s, forallb PCN.noor l = true -> run (PC.step c) (PC.init c) l = Some s -> PC.accepts c false (trace PC.lbl l) = true) /\
+  (forall c l s, run (OM.step c) (OM.init c) l = Some s -> OM.accepts c (trace OM.lbl l) = true).
+Proof. exact (conj PCA.pc_trace_accepted (conj PCN.pc_trace_accepted_noor OMSim.om_trace_accepted)). Qed.
+Print Assumptions c12_observable.
+
+(* ================= closing twice is harmless ================= *)
+
+(* partition consumer: a second AsyncClose changes nothing (closeOnce), a second Close() returns no errors (in
+   c12_observable: the automaton accepts `Ret 1 n` after a first return only for n = 0);
+   group (repaired tree): the first Close returns nil or an error, every later one nil; Consume on a group whose Close
+   has returned answers ErrClosedConsumerGroup; Errors() delivers nothing after Close returned;
+   client: the first Close returns nil, every later one ErrClosedClient;
+   broker connection: Close on a connection that is not open returns ErrNotConnected and touches nothing *)
+Theorem c12_double_close_harmless :
+  (forall c s s', PC.once (PC.ch s) = true -> PC.step c s PC.AAsyncClose = Some s' ->
+     PC.ch s' = PC.ch s /\ PC.dp s' = PC.dp s /\ PC.fp s' = PC.fp s /\ PC.w s' = PC.w s /\ PC.ap s' = PC.ap s /\ PC.panic s' = PC.panic s) /\
+  (forall c l s, Grp.elock c = true -> run (Grp.step c) (Grp.init c) l = Some s -> Grp.accepts (trace Grp.lbl l) = true) /\
+  (forall c l s, run (Client.step c) (Client.init c) l = Some s -> Client.accepts (trace Client.lbl l) = true) /\
+  (forall c s s', Broker.conn s = false -> Broker.step c s Broker.ACloseCall = Some s' ->
+     Broker.ret s' = Some rErrNotConnected /\ Broker.conn s' = false /\ Broker.resp s' = Broker.resp s /\
+     Broker.done s' = Broker.done s /\ Broker.panic s' = Broker.panic s).
+Proof.
+  exact (conj PCS.pc_second_asyncclose_noop (conj GrpA.group_trace_accepted_fixed
+        (conj ClientP.client_trace_accepted BrokerP.broker_close_not_open))).
+Qed.
+Print Assumptions c12_double_close_harmless.
+
+(* ================= termination ================= *)
+(* [Terminates step phase final]: inside the phase the successor relation is well founded (no infinite run) and
+   a state of the phase in which no step is enabled is final.  Timer events after the close, error reports
+   still to come and calls the application still makes are finitely many (budgets of the models, arbitrary);
+   network calls are single steps (they return); the application keeps receiving. *)
+
+Theorem c12_group_terminates : forall c, Grp.elock c = true ->
+  Terminates (Grp.step c) (fun s => Reach (Grp.step c) (Grp.init c) s /\ Grp.closed_ch s = true) Grp.final.
+Proof. exact GrpTT.group_terminates. Qed.
+Print Assumptions c12_group_terminates.
+
+Theorem c12_client_broker_terminate :
+  (forall c, Terminates (Client.step c) (fun s => Reach (Client.step c) (Client.init c) s /\ Client.closer s = true) Client.final) /\
+  (forall c, Terminates (Broker.step c) (fun s => Reach (Broker.step c) (Broker.init c) s /\ Broker.closing s) BrokerP.final).
+Proof. exact (conj ClientP.client_terminates BrokerP.broker_close_terminates). Qed.
+Print Assumptions c12_client_broker_terminate.
